@@ -134,8 +134,8 @@ def _unwrap(out):
     return out
 
 
-def derivative_ref(f, x):
-    """(value, derivative, relative tolerance) of f at x.
+def derivative_ref(f, x, side=0):
+    """(value, derivative, relative tolerance) of f at x (side = -1 / +1: x is known to lie left / right of a kink).
 
     Exact route: f is run on a dual number by the parent's own code; tolerance None means "exact, use the caller's
     rounding-level tolerance".  If the parent's code cannot carry a dual number (it casts to float, uses a ufunc
@@ -149,8 +149,17 @@ def derivative_ref(f, x):
         return float(out), 0.0, None  # x never entered the arithmetic: a constant branch (e.g. the initial GOR above p_b)
     except (TypeError, AttributeError, ValueError):
         pass
-    h = 1e-4 * max(abs(x), 1e-6)
     f0 = float(f(x))
+    if side:
+        # the caller knows on which side of a kink x lies: second-order one-sided difference that stays on that side
+        # (step 1e-6 |x|, or the caller's own bound on the distance to the kink)
+        h = 1e-6 * max(abs(x), 1e-6) * (1 if side > 0 else -1)
+        d1 = (-3 * f0 + 4 * float(f(x + h)) - float(f(x + 2 * h))) / (2 * h)
+        d2 = (-3 * f0 + 4 * float(f(x + h / 2)) - float(f(x + h))) / h
+        if abs(d1 - d2) > 1e-4 * max(abs(d1), abs(d2), 1e-300):
+            return f0, None, None
+        return f0, (4 * d2 - d1) / 3, 1e-6
+    h = 1e-4 * max(abs(x), 1e-6)
 
     def cd(hh):
         return (float(f(x + hh)) - float(f(x - hh))) / (2 * hh)
